@@ -1,5 +1,6 @@
 """C11 — Request bodies larger than the limit are never delivered."""
 import itertools
+import re
 import os
 
 import z3
@@ -89,6 +90,14 @@ def run(tier, replay_file=None):
     chk = Check('C11', tier)
     ex = chk.load(AM.MODELS + httpmodel.MODELS + BASE_MODELS, loop_bound=40)
     ex.const_models.append(httpmodel.const_model)
+    # request parts / header text models shared with C10 (a body extractor may look at the request's headers)
+    from props import c10
+    ex.models = [m for m in c10.MODELS if 'into_parts' in m[0] or 'parse' in m[0] or 'trim' in m[0]] + ex.models
+    import glob, re as _re
+    from mirsym.runner import REPO
+    hv_ = _re.search(r'name = "http"\nversion = "([^"]+)"', open(os.path.join(REPO, 'Cargo.lock')).read()).group(1)
+    for p_ in glob.glob(os.path.expanduser(f'~/.cargo/registry/src/*/http-{hv_}/src/request.rs')): ex.L.add_source(p_, only={'Parts'})
+    ex._parts_loaded = True
     f = ex.fns
     F_limit = mir.find(f, r'handler::<impl at [^>]*>::request_body_max_bytes$')
     F_into_stream = mir.find(f, r'extractor::body::<impl at [^>]*>::into_stream$')
@@ -185,6 +194,7 @@ def run(tier, replay_file=None):
 
         _ph['stream'] = round(_t.time() - chk.t0, 1)
         # ---- (3) buffered extractor (UntypedBody): Ok iff the stream has no error; content = all data chunks in order; cap = effective limit
+        declared, declared_present = c10.NumStr('declared_content_length'), z3.Bool('content_length_header_present')
         def untyped_task(chk, task):
                 kinds, has = task
                 script0, lens = mk_script(kinds)
@@ -193,7 +203,9 @@ def run(tier, replay_file=None):
                 def h(ex):
                     Yielder.emitted = []
                     body = Body(script0)
-                    req = httpmodel.Request(body=body)
+                    # whatever the client declared in Content-Length (it may disagree with a chunked body: hyper then decodes the chunks and leaves the header)
+                    hdrs = httpmodel.HMap([] if ENC['int'] else [('content-length', httpmodel.HV(declared, True, declared_present))])
+                    req = httpmodel.Request(headers=hdrs, body=body)
                     fut = ex.call_fn(F_untyped, [Ref(Cell(mk_rqctx(ex, has))), req])
                     cell = AM.pinned(fut)
                     if isinstance(cell.v, Ref): cell = cell.v.cell
@@ -217,7 +229,8 @@ def run(tier, replay_file=None):
                             good = r[0] == 'ok' and len(r[1]) == len(spec) and all(a is s[1] for a, s in zip(r[1], spec))
                         m = chk.prove(f'untyped/{"-".join(kinds)}/{"override" if has else "default"}/as-specified', pc2, z3.BoolVal(not good), extra=assume, prefer=[ule(l, 64) for l in lens] + [ule(dflt, 256), ule(ovr, 256)])
                         if m is not None:
-                            report_stream(chk, m, kinds, lens, eff, f'buffered extractor returned {r}, statement says {spec}', dflt=dflt, ovr=ovr if has else None)
+                            report_stream(chk, m, kinds, lens, eff, f'buffered extractor returned {r}, statement says {spec}', dflt=dflt, ovr=ovr if has else None,
+                                          declared=None if ENC['int'] else (declared, declared_present))
                     refeval.under(list(pc) + assume, lambda d: spec_stream(script0, eff, d), then, Inconclusive)
         extras, inc = parallel(chk, [(k_, h_) for k_ in shapes(min(kmax, 5 if ENC['int'] else 3)) for h_ in (False, True)], untyped_task); incon += inc
 
@@ -248,6 +261,31 @@ def run(tier, replay_file=None):
         return incon
 
         _ph['multipart'] = round(_t.time() - chk.t0, 1)
+
+    # ---- (0) the builder that sets the per-endpoint override: the value in force is the one set last
+    from props.routerlib import Endpoint as _Endpoint
+    Fb = [n for n in f if re.search(r'^api_description::<impl at [^>]*>::request_body_max_bytes$', n)]
+    if len(Fb) != 1: raise Inconclusive(f'cannot locate ApiEndpoint::request_body_max_bytes: {Fb}')
+    b1, b2 = z3.BitVec('first_override', 64), z3.BitVec('second_override', 64)
+    for initial in (False, True):
+        def hb(ex):
+            e = _Endpoint(0, 'PUT', '/a', 'All', max_bytes=(z3.BitVec('attribute_override', 64) if initial else None)).mk(ex)
+            e = ex.call_fn(Fb[0], [e, b1])
+            e = ex.call_fn(Fb[0], [e, b2])
+            return ex.field(e, 'request_body_max_bytes').v
+        outs = ex.explore(hb, [])
+        chk.paths += len(outs)
+        for pc, (k, r) in outs:
+            good = k == 'ok' and isinstance(r, Adt) and r.discr == 1 and z3.is_expr(ex.payload(r))
+            m = chk.prove(f'builder/{"attribute-then-" if initial else ""}twice/last-override-wins', pc, z3.BoolVal(True) if not good else ex.payload(r) != b2)
+            if m is not None:
+                v1, v2 = concrete(m, b1) % 4096, concrete(m, b2) % 4096
+                if v1 == v2: v2 = (v1 + 7) % 4096
+                case = {'op': 'body', 'chunks': [max(v1, v2)], 'default': 5000, 'override': v1, 'override_again': v2, 'extractor': 'untyped'}
+                nat = replay([case])[0]
+                want_ok = max(v1, v2) <= v2
+                chk.counterexample(f'ApiEndpoint::request_body_max_bytes called with {v1} then {v2} leaves {r}; a body of {max(v1, v2)} bytes -> {nat}', case,
+                                   (nat.get('status') == 200) != want_ok, role='builder')
 
     # lengths and limits as 64-bit vectors (bit-blasted) up to 4 frames; as mathematical integers with the wrap-around made explicit
     # (linear arithmetic) for longer frame scripts, where bit-blasting the chained 64-bit additions does not finish
@@ -377,9 +415,10 @@ def concrete(m, t):
     return m.eval(t, model_completion=True).as_long()
 
 
-def native_body(chunks, default, override, extractor='untyped', framing=None):
+def native_body(chunks, default, override, extractor='untyped', framing=None, declared=None):
     case = {'op': 'body', 'chunks': chunks, 'default': default, 'override': override, 'extractor': extractor}
     if framing: case['framing'] = framing
+    if declared is not None: case['declared_length'] = declared        # a Content-Length header next to chunked framing
     return replay([case])[0], case
 
 
@@ -387,8 +426,12 @@ def clamp(v, hi=4096):
     return v if v <= hi else None
 
 
-def report_stream(chk, m, kinds, lens, cap, what, dflt=None, ovr=None):
+def report_stream(chk, m, kinds, lens, cap, what, dflt=None, ovr=None, declared=None):
     if m is None: return
+    decl = None
+    if declared is not None and bool(m.eval(declared[1], model_completion=True)) and bool(m.eval(declared[0].numeric, model_completion=True)):
+        decl = m.eval(declared[0].val, model_completion=True).as_long()
+        if not (0 <= decl < 2**63): decl = None
     ls = [concrete(m, l) for l in lens]
     c = concrete(m, cap)
     if any(l > 65536 for l in ls) or c > 65536:
@@ -399,8 +442,8 @@ def report_stream(chk, m, kinds, lens, cap, what, dflt=None, ovr=None):
         return
     bad = False
     info = []
-    for ext, framing in (('untyped', None), ('streaming', None), ('untyped', 'content-length')):
-        nat, case = native_body(ls, c, None, ext, framing)
+    for ext, framing in (('untyped', None), ('streaming', None), ('untyped', 'content-length')) + ((('untyped', 'declared'),) if decl is not None else ()):
+        nat, case = native_body(ls, c, None, ext, None if framing == 'declared' else framing, declared=decl if framing == 'declared' else None)
         tot = sum(ls)
         if tot <= c: ok = nat.get('status') == 200 and nat.get('seen') == tot
         else: ok = 400 <= nat.get('status', 0) <= 499 and nat.get('seen_max', 0) <= c
